@@ -11,6 +11,10 @@ TECH = ('explicit TLA+ specification model-checked with TLC; TLC-emitted '
 
 # property id -> (design_ref, level text, level note, technique suffix)
 CLAIMED = {
+    'C17': ('5/C17, 3.9',
+            'spec/Interp.tla defines the exact rational weights of piecewise-linear interpolation (clamped when not extrapolating) and the layer-overlap fractions of conservative regridding; Interp_MC checks on every small grid pair (source length 2-3 quick / 2-4 thorough, both directions, targets inside/outside, shared or sub-range sigma edges) non-negativity, partition of unity, linear exactness, identity, rows-sum-to-one, thickness matching, column conservation and constant preservation, and emits the pairs; getinterpweights, sigma2coeff, interpDimension (along the middle axis of a 3-D variable) and interpSigma (linear, conserve) are run on them (plus longer random grids and single-level sources) and Interp_Trace requires rational equality with the model.',
+            'Trusted: Fraction.limit_denominator recovery of floats (residual <= 1e-9; float32 results of interpSigma to 2e-6 with sigma edges in 1/8 units so that coordinates are exact). Exactness for arbitrary float fields and non-dyadic sigma values is only up to rounding and is not decided. interpvars (functional form) not covered.',
+            'grid-pair enumeration + weights/values validated'),
     'C16': ('5/C16, 3.9',
             'spec/Lookup.tla states, for every configuration (strictly monotone coordinate in either direction, bounds given as none / 1-D edges / n x 2, method nearest|bounds|exact, clean, bounds=ignore|warn|error, left/right None|nan), the set of observations the property allows for a probe value (both neighbours at ties and interior edges, mask/warn/raise rules out of range). Lookup_MC enumerates all configurations over a lattice (coordinate length 2-3 quick, 2-4 thorough), checks satisfiability and sharpness invariants of those sets and emits the configurations; each is replayed on val2idx with one call per probe (centres, edges, edge+-1, far outside; plus random longer non-uniform coordinates) and Lookup_Trace checks every observation (index | masked | raised, warning flag) and that the coordinate is unchanged.',
             'Trusted: TLC, the observation logging (warnings are captured from stderr because the library installs its own showwarning). Coordinates/probes are small integers (exact in float64). Clamping to the end cell with bounds=ignore/warn and left/right=None is accepted as documented behaviour. Datetime front-end time2idx is covered through C12 (date2num round trip) rather than here.',
